@@ -206,7 +206,8 @@ def install(ex, db, w_holder):
             w = W()
             def respond(e2):
                 c = e2.choose(2, kind + '_fails')
-                if c == 0: return ready(err(Opaque('ctx::Error')))
+                if c == 0:
+                    w.log.append(('env_fail', kind)); return ready(err(Opaque('ctx::Error')))
                 if log: w.log.append((kind, a[2] if len(a) > 2 else None))
                 return ready(ok(okval))
             return EnvFuture(kind, respond)
@@ -219,6 +220,7 @@ def install(ex, db, w_holder):
         def respond(e2):
             c = e2.choose(3, 'verify_payload')
             if c == 0: return ready(ok(UNIT))
+            w.log.append(('env_fail', 'verify_payload'))
             mkc = Mk(db, 'zksync_consensus_bft')
             try:
                 t = mkc.ty(r'zksync_concurrency::ctx::Error')
